@@ -710,7 +710,7 @@ impl<'a> Entry<'a> {
     #[inline]
     pub fn key(&self) -> &str {
         match self {
-            Entry::Occupied(entry) => entry.handle.as_str().unwrap(),
+            Entry::Occupied(entry) => entry.key,
             Entry::Vacant(entry) => entry.key(),
         }
     }
